@@ -149,6 +149,11 @@ class Report(object):
                 self.pid, open_known[sig]['what'], sig, len(vs), dumps(vs[0]['case'])[:160]))
         rc = 0
         replay_paths = []
+        d0 = os.path.join(REPLAY_DIR, self.pid)
+        if os.path.isdir(d0):            # artefacts of an earlier run of this tier are stale now
+            for fn in os.listdir(d0):
+                if fn.startswith(self.tier + '-'):
+                    os.remove(os.path.join(d0, fn))
         if fresh:
             rc = 1
             bysig = {}
